@@ -39,6 +39,7 @@ def flavours(rng):
     out['tuple-values'] = rows(lambda i: [keys[i], (i, i + 1)], n)
     out['list-values'] = rows(lambda i: [keys[i], [i, [i + 1]]], n)          # mutable cells
     out['dict-values'] = rows(lambda i: [keys[i], {'a': i, 'b': [i]}], n)
+    out['dict-values-differing-keys'] = rows(lambda i: [keys[i], [{'a': i}, {'b': [i]}, {'a': i, 'c': None}, {}][i % 4]], n)
     out['with-none'] = rows(lambda i: [rng.choice([None, keys[i]]), rng.choice([None, 1, 2])], n)
     rag = rows(lambda i: [keys[i], rng.choice([1, 2, None])], n)
     for i in range(1, len(rag)):
